@@ -221,7 +221,7 @@ CONFIG["C07"] = dict(
 )
 CONFIG["C08"] = dict(
     lean_modules=["Props.C08"], generators=["C08"], level="proof", rule=_DKG_RULE, trusted_base=BLS_TB,
-    technique="Lean 4 proof (blame targets, honest participants never blame each other over whole executions, monotone disqualification, fault => disqualification lemmas, honest dealer never disqualified, plain Feldman VSS invariant) + differential run + fairness predicates on real executions",
+    technique="Lean 4 proof (blame targets, honest participants never blame each other over whole executions, monotone disqualification, fault => disqualification lemmas, honest dealer never disqualified and never flagged, plain Feldman VSS invariant) + differential run + fairness predicates on real executions",
     level_text="Theorems for every state and message: an instance only ever blames the sender of the handled message or its dealer; timeouts/End only blame the dealer; disqualification is monotone and makes End fail; "
                "unanswered complaint, > t complaints, missing / late / malformed vector each disqualify; plain Feldman VSS returns keys only with a valid stored vector and a share passing the check against it (invariant over all call sequences of a non-dealer). "
                "own_complaint_at_most_once: over every sequence of deliveries and timeouts an honest participant broadcasts its complaint at most once (so it is never flagged for a duplicate: defect class F9); share_vector_any_order and "
@@ -232,7 +232,10 @@ CONFIG["C08"] = dict(
                "for every behaviour of the dealer and the others, every private message and every delivery order at both, assuming only that what one receives from the other by broadcast in a round is what the other's state machine broadcast in that round; "
                "rests on honest_broadcasts_one_complaint (an honest participant broadcasts at most one message in a whole execution, its complaint, never after the first timeout has passed) and blame_targets; non-vacuity example with a complaint at the first timeout. "
                "joint_round_never_blames_honest (Proofs/DkgJointAgree): inside Joint-Feldman the instance of dealer d also sees the other broadcasts of an honest participant (its vector, its answers, its complaints against other dealers); they change nothing and draw no blame, so a round of the instance never blames it. "
-               "Partial: the instances whose dealer is itself one of the two honest participants (an honest dealer is never flagged by an honest receiver) are exercised by the runs.",
+               "honest_dealer_never_blamed_by_honest (Proofs/DkgDealerBlame): the instances whose dealer is itself honest - over three rounds, both timeouts and End no Disqualify / FlagMisbehavior callback of an honest receiver targets an honest dealer, for every behaviour of the others and every order, "
+               "given deliveries compatible with an honest dealer, vector and share in round one, at most t complainers each answered, no message of the dealer delivered twice (Once: pairwise, over all three rounds), no vector/share after round one and no complaint-tagged dealer broadcast after the second timeout; "
+               "rests on delivery_never_blames_honest_dealer (handler by handler: a first-time, in-time vector / share / valid answer and every complaint of another participant produce no callback against the dealer) and a history invariant (what is still to be delivered has not been received: Safe, kept by frames_interp); non-vacuity example. "
+               "The hypotheses are necessary: a second copy of the vector, a late share or a second answer IS flagged by the code (FlagMisbehavior on the dealer), as the runs show.",
     level_note="Lean kernel + correspondence",
     assumptions=["reliable broadcast, round-synchronous delivery, at most t Byzantine participants"],
 )
